@@ -48,7 +48,9 @@ def c15(res, tier, seed):
     lines = ["init", "opt iterlog 0"]
     for k, (name, n, L, src, pre) in enumerate(cases):
         lines += ["note k%d" % k] + [p for p in pre if p.startswith("config")] + [p for p in pre if not p.startswith("config")]
-        lines += ["compiler 0", "add 0 - " + yv.hx(src.encode()), "cdestroy 0",
+        # every entry point of the compiler in turn (sources that come with a file name go through other bookkeeping)
+        # (not for the include depth: a source that has a file name occupies one level of the include stack itself)
+        lines += ["compiler 0", "%s 0 - %s" % ("add" if name == "include_depth" else ["addfile", "add", "addfd", "addbytes"][k % 4], yv.hx(src.encode())), "cdestroy 0",
                   # after the limit error the library remains usable: a fresh compiler compiles a plain rule
                   "compiler 1", "add 1 - " + yv.hx(b"rule ok { condition: true }"), "cdestroy 1", "config maxstr 10000", "leakcheck"]
     lines.append("finalize")
